@@ -87,6 +87,13 @@ func Killable(f func()) (killed bool) {
 	return false
 }
 
+// KillNow kills the calling process at this very point (used from vrt.YieldHook, i.e. at
+// any scheduling point, not only at file-system calls).
+func KillNow() {
+	dead[vrt.ThreadID()] = true
+	panic(Killed{})
+}
+
 // Revive lets process id make calls again (a new process on the same thread).
 func Revive(id int) { delete(dead, id); delete(KillAt, id); calls[id] = 0; Dead = false }
 
